@@ -110,6 +110,16 @@ def run(shard, rec, tier, seed):
     rec.count("hash-equals-client", n)
     rec.count("range-below-bound", max(0, min(hi, BOUND + 1) - lo))
     rec.count("negative-dividend-challenges", max(0, hi - max(lo, 11092004)))
+    # the same challenges again in shuffled order (a memo keyed too coarsely would answer from the wrong entry)
+    import random
+
+    rng = random.Random("C11-%d" % lo)
+    picks = [rng.randrange(lo, hi) for _ in range(3000)] + [rng.randrange(0, B3) for _ in range(500)]
+    for c in picks + picks[::-1]:
+        if real(c) != py_oracle(c):
+            rec.violation("hash-mismatch-on-repeat", "server_verification_hash(%d) = %d on a repeated call, the client computes %d" % (c, real(c), py_oracle(c)), {"challenge": c})
+            break
+    rec.count("repeated-shuffled-calls", 2 * len(picks))
     if lo == 0:
         rec.sample({"challenge": 0, "hash": real(0)})
     if lo <= 11092479 < hi:
